@@ -966,6 +966,20 @@ func (c *MJSectionComponent) getInnerContentWidth() int {
 		}
 	}
 
+	// Borders narrow the content box as well (MJML: box = width - paddings - borders).
+	borderLeft, borderRight := 0, 0
+	if border := c.GetAttributeFast(c, constants.MJMLBorder); border != "" {
+		borderLeft = styles.ParseBorderWidth(border)
+		borderRight = borderLeft
+	}
+	if bl := c.GetAttributeFast(c, constants.MJMLBorderLeft); bl != "" {
+		borderLeft = styles.ParseBorderWidth(bl)
+	}
+	if br := c.GetAttributeFast(c, constants.MJMLBorderRight); br != "" {
+		borderRight = styles.ParseBorderWidth(br)
+	}
+	effectiveWidth -= borderLeft + borderRight
+
 	if effectiveWidth <= 0 {
 		return c.GetEffectiveWidth()
 	}
